@@ -358,9 +358,7 @@ Section C04_whole_state.
     = vort_tendency_explicit Wi Wi (toM_c g) (curlc_c g) (clip_c g) (with_tref c T2) (Xs Wi X T T2)
                              (fun p => rt_dry (with_tref c T2) (Xs Wi X T T2 p)) (fun _ => 0) r w.
   Proof. exact (vorticity_invariance_concrete g c X T H_curl_grad T1 T2 r w). Qed.
-  (** NOT proved (named gap, "whole_state_lift"): that the nodal columns X_of (diagnostic_state s_i) of two
-      states with temperature_variation = Tm - T_i * onem00 are [Xs X T T_i] on the node range; it needs
-      to_nodal(onem00) = 1 as a further table hypothesis and range-extensionality of every column function. *)
+  (** the lift of these three to two EXECUTED states is [C04_whole_state_split_invariance] below. *)
 
   (** (c) implicit half: linear, and implicit_inverse_full inverts 1 - eta * implicit_terms_full, per coefficient *)
   Theorem C04_whole_state_implicit_linear (al be : F) (x y z : @State F) a l :
@@ -512,6 +510,217 @@ Proof.
   - intro H. vm_compute in H. discriminate H.
 Qed.
 
+
+(** *** the last lift: two EXECUTED whole states with the same absolute temperature (T'_1 + T_1 = T'_2 + T_2
+    levelwise, as a shift of the (0,0) coefficient; everything else shared) have the same explicit_terms_full +
+    implicit_terms_full on every in-range coefficient of every field.  Premises: the four exactness facts about
+    the grid tables on the (unmaterialised) nodal columns of the shared fields, to_nodal(onem00 v00) = 1 on the node
+    range (table obligation), and that the two profiles agree beyond the K entries the code has.  Uses
+    functional_extensionality (stdlib) only to identify nodal-column records whose level functions agree pointwise. *)
+Section C04_whole_state_lift.
+  Context {F : Type} {o : Ops F} {Fc : FieldC o}.
+  Hypothesis two_nz : two <> 0.
+  Hypothesis feqb_sound : forall x y : F, feqb x y = true -> x = y.
+  Variable g : @HGrid F.
+  Variable c : @PEcfg F.
+  Hypothesis th2_nz : forall k, (S k < cK c)%nat -> thickness (cb c) k + thickness (cb c) (S k) <> 0.
+  Variable grav : F.
+  Variable orog : nat -> nat -> F.
+  Variable s0 : @State F.
+  Variables temp1 temp2 : nat -> nat -> nat -> F.
+  Variables T1 T2 : nat -> F.
+  Variable v00 : F.
+  Hypothesis H_one : forall i j, (i < hI g)%nat -> (j < hJ g)%nat -> to_nodal g (cur (onem00 v00)) i j = 1.
+  Hypothesis Htemp : forall k a l, (k < cK c)%nat -> (a < hR g)%nat -> (l < hL g)%nat ->
+      temp1 k a l + T1 k * onem00 v00 (a, l) = temp2 k a l + T2 k * onem00 v00 (a, l).
+  Hypothesis Hbeyond : forall k, (cK c <= k)%nat -> T1 k = T2 k.
+  Let X := X_ideal g (cK c) s0.
+  Let dv := dv_of (cK c) s0.
+  Let lnps := unc (s_lnps s0).
+  Hypothesis H_roundtrip : forall s w, clip_c g (toM_c g (toN_c g (dv s))) w = dv s w.
+  Hypothesis H_div_vel : forall r w,
+      clip_c g (divc_c g (toM_c g (fun p => n_u (X p) r * n_sec2 (X p))) (toM_c g (fun p => n_v (X p) r * n_sec2 (X p)))) w
+      = clip_c g (toM_c g (fun p => n_div (X p) r)) w.
+  Hypothesis H_div_grad : forall w,
+      clip_c g (divc_c g (toM_c g (fun p => n_gx (X p) * n_sec2 (X p))) (toM_c g (fun p => n_gy (X p) * n_sec2 (X p)))) w
+      = lap_c g lnps w.
+  Hypothesis H_curl_grad : forall w,
+      clip_c g (curlc_c g (toM_c g (fun p => n_gx (X p) * n_sec2 (X p))) (toM_c g (fun p => n_gy (X p) * n_sec2 (X p)))) w = 0.
+
+  Theorem C04_whole_state_split_invariance k a l :
+    (k < cK c)%nat -> (a < hR g)%nat -> (l < hL g)%nat ->
+    let s1 := with_stemp s0 temp1 in let s2 := with_stemp s0 temp2 in
+    let c1 := with_tref c T1 in let c2 := with_tref c T2 in
+    let E1 := explicit_terms_full g c1 grav orog s1 in let I1 := implicit_terms_full g c1 s1 in
+    let E2 := explicit_terms_full g c2 grav orog s2 in let I2 := implicit_terms_full g c2 s2 in
+    s_vort E1 k a l + s_vort I1 k a l = s_vort E2 k a l + s_vort I2 k a l /\
+    s_div E1 k a l + s_div I1 k a l = s_div E2 k a l + s_div I2 k a l /\
+    s_temp E1 k a l + s_temp I1 k a l = s_temp E2 k a l + s_temp I2 k a l /\
+    s_lnps E1 a l + s_lnps I1 a l = s_lnps E2 a l + s_lnps I2 a l.
+  Proof.
+    intros Hk Ha Hl.
+    exact (whole_state_split_invariance two_nz feqb_sound g c th2_nz grav orog s0 temp1 temp2 T1 T2 v00 H_one Htemp Hbeyond
+             H_roundtrip H_div_vel H_div_grad H_curl_grad k a l Hk Ha Hl).
+  Qed.
+End C04_whole_state_lift.
+
+(** *** non-vacuity of the whole-state theorems: a concrete toy grid and state over Qc *)
+(** toy zonal "sphere" over Qc: M = 1 (R = 1), L = 3, one longitude, two latitudes mu = -1/2, +1/2 with weights 1/2;
+    basis values p0 = 1, p1 = mu / (1/2), p2 = 0 at the nodes; recurrence weights chosen so that the
+    discrete operators are exact on degree <= 1 (a[0,1] = 3/4, b[0,0] = 1/2) *)
+Definition qz : Qc := Q2Qc 0.
+Definition toy_grid : @HGrid Qc :=
+  mkHG 1 3 1 2 (Q2Qc 1)
+    (fun i a => match i, a with O, O => Q2Qc 1 | _, _ => qz end)
+    (fun a j l => match a with
+                  | O => match l with
+                         | O => match j with O => Q2Qc 1 | S O => Q2Qc 1 | _ => qz end
+                         | S O => match j with O => Q2Qc (-(1#1)) | S O => Q2Qc 1 | _ => qz end
+                         | _ => qz end
+                  | _ => qz end)
+    (fun j => match j with O => Q2Qc (1#2) | S O => Q2Qc (1#2) | _ => qz end)
+    (fun a l => match a with O => match l with S O => Q2Qc (3#4) | S (S O) => Q2Qc (1#3) | _ => qz end | _ => qz end)
+    (fun a l => match a with O => match l with O => Q2Qc (1#2) | S O => Q2Qc (1#5) | _ => qz end | _ => qz end)
+    (fun j => Q2Qc (4#3))
+    (fun j => match j with O => Q2Qc (-(1#2)) | _ => Q2Qc (1#2) end)
+    (Q2Qc (1#7)).
+(** a two-level state on it: zero-mean vorticity / divergence of degree 1, temperature and lnps of degree <= 1 *)
+Definition lvl2 (x0 x1 : Q) (k : nat) : Qc := match k with O => Q2Qc x0 | S O => Q2Qc x1 | _ => qz end.
+Definition toy_state : @State Qc :=
+  mkState (fun k a l => match l with S O => match a with O => lvl2 (1#3) (-(1#2)) k | _ => qz end | _ => qz end)
+          (fun k a l => match l with S O => match a with O => lvl2 (1#5) (-(1#4)) k | _ => qz end | _ => qz end)
+          (fun k a l => match l with O => match a with O => lvl2 (3#1) (5#2) k | _ => qz end
+                                   | S O => match a with O => lvl2 (1#2) (-(2#3)) k | _ => qz end | _ => qz end)
+          (fun a l => match l with O => match a with O => Q2Qc (1#10) | _ => qz end
+                                 | S O => match a with O => Q2Qc (-(1#5)) | _ => qz end | _ => qz end)
+          [].
+
+Example C04_whole_state_hyps_satisfiable :
+  let g := toy_grid in let X := X_ideal g 2 toy_state in let dv := dv_of 2 toy_state in
+  let lnps := unc (s_lnps toy_state) in
+  (forall p k, n_div (X p) k = toN_c g (dv k) p) /\
+  (forall s w, clip_c g (toM_c g (toN_c g (dv s))) w = dv s w) /\
+  (forall r w,
+      clip_c g (divc_c g (toM_c g (fun p => n_u (X p) r * n_sec2 (X p))) (toM_c g (fun p => n_v (X p) r * n_sec2 (X p)))) w
+      = clip_c g (toM_c g (fun p => n_div (X p) r)) w) /\
+  (forall w,
+      clip_c g (divc_c g (toM_c g (fun p => n_gx (X p) * n_sec2 (X p))) (toM_c g (fun p => n_gy (X p) * n_sec2 (X p)))) w
+      = lap_c g lnps w) /\
+  (forall w,
+      clip_c g (curlc_c g (toM_c g (fun p => n_gx (X p) * n_sec2 (X p))) (toM_c g (fun p => n_gy (X p) * n_sec2 (X p)))) w = 0) /\
+  (* and the instance is not trivial: non-zero laplacian of lnps, velocity, divergence *)
+  lap_c g lnps (0, 1)%nat <> 0 /\ n_u (X (0, 1)%nat) 0 <> 0 /\ n_v (X (0, 0)%nat) 1 <> 0 /\ dv 1%nat (0, 1)%nat <> 0.
+Proof.
+  cbv zeta.
+  split; [reflexivity|].
+  split.
+  { intros s [a l].
+    destruct (Nat.lt_ge_cases l 2) as [Hl|Hl].
+    2:{ rewrite (clip_c_out toy_grid) by (cbn; lia).
+        unfold dv_of. destruct (Nat.ltb s 2); [|reflexivity]. unfold unc. cbn [fst snd s_div toy_state].
+        destruct l as [|[|l]]; [lia|lia|reflexivity]. }
+    destruct a as [|a].
+    2:{ rewrite (clip_c_zero toy_grid) by (apply toM_c_out; cbn; lia).
+        unfold dv_of. destruct (Nat.ltb s 2); [|reflexivity]. unfold unc. cbn [fst snd s_div toy_state].
+        destruct l as [|[|l]]; reflexivity. }
+    destruct l as [|[|l]]; [| |lia]; destruct s as [|[|s]]; apply Qc_is_canon; vm_compute; reflexivity. }
+  split.
+  { intros r [a l].
+    destruct (Nat.lt_ge_cases l 2) as [Hl|Hl]; [|rewrite !(clip_c_out toy_grid) by (cbn; lia); reflexivity].
+    destruct a as [|a].
+    2:{ rewrite (clip_c_zero toy_grid) by (apply divc_toM_out; [reflexivity|cbn; lia]).
+        rewrite (clip_c_zero toy_grid) by (apply toM_c_out; cbn; lia). reflexivity. }
+    destruct l as [|[|l]]; [| |lia]; destruct r as [|[|r]]; apply Qc_is_canon; vm_compute; reflexivity. }
+  split.
+  { intros [a l].
+    destruct (Nat.lt_ge_cases l 2) as [Hl|Hl].
+    2:{ rewrite (clip_c_out toy_grid) by (cbn; lia). symmetry. apply lap_c_zero.
+        unfold unc. cbn [fst snd s_lnps toy_state]. destruct l as [|[|l]]; [lia|lia|reflexivity]. }
+    destruct a as [|a].
+    2:{ rewrite (clip_c_zero toy_grid) by (apply divc_toM_out; [reflexivity|cbn; lia]). symmetry. apply lap_c_zero.
+        unfold unc. cbn [fst snd s_lnps toy_state]. destruct l as [|[|l]]; reflexivity. }
+    destruct l as [|[|l]]; [| |lia]; apply Qc_is_canon; vm_compute; reflexivity. }
+  split.
+  { intros [a l].
+    destruct (Nat.lt_ge_cases l 2) as [Hl|Hl]; [|rewrite (clip_c_out toy_grid) by (cbn; lia); reflexivity].
+    destruct a as [|a].
+    2:{ apply clip_c_zero. apply curlc_toM_out; [reflexivity|cbn; lia]. }
+    destruct l as [|[|l]]; [| |lia]; apply Qc_is_canon; vm_compute; reflexivity. }
+  repeat split; intro H; vm_compute in H; discriminate H.
+Qed.
+
+(** premises of C04_whole_state_resolvent: one layer, the exact inverse of the assembled 3 x 3 matrix *)
+Definition toy_cfg1 : @PEcfg Qc :=
+  mkPE 1 (Q2Qc (1#3)) (Q2Qc (2#7)) (fun _ => Q2Qc (-(7#10))) (fun k => match k with O => qz | _ => Q2Qc 1 end) (fun _ => Q2Qc (250#1)).
+Definition inv3 (M : @Mat Qc) : @Mat Qc :=
+  let m := fun i j : nat => M i j in
+  let det := m 0%nat 0%nat * (m 1%nat 1%nat * m 2%nat 2%nat - m 1%nat 2%nat * m 2%nat 1%nat)
+             - m 0%nat 1%nat * (m 1%nat 0%nat * m 2%nat 2%nat - m 1%nat 2%nat * m 2%nat 0%nat)
+             + m 0%nat 2%nat * (m 1%nat 0%nat * m 2%nat 1%nat - m 1%nat 1%nat * m 2%nat 0%nat) in
+  fun i j => (m ((j + 1) mod 3)%nat ((i + 1) mod 3)%nat * m ((j + 2) mod 3)%nat ((i + 2) mod 3)%nat
+              - m ((j + 1) mod 3)%nat ((i + 2) mod 3)%nat * m ((j + 2) mod 3)%nat ((i + 1) mod 3)%nat) / det.
+Example C04_whole_state_resolvent_hyps_satisfiable :
+  let c := toy_cfg1 in let eta := Q2Qc (1#2) in
+  let lam := Model.Deriv.lap_eig (hL toy_grid) (hr toy_grid) 1%nat in
+  is_left_inverse (2 * cK c + 1) (inv3 (implicit_matrix c eta lam)) (implicit_matrix c eta lam) /\
+  thickness (cb c) 0%nat <> 0 /\ thickness (cb c) (cK c - 1)%nat <> 0 /\
+  implicit_matrix c eta lam 0%nat 1%nat <> 0 /\ implicit_matrix c eta lam 1%nat 0%nat <> 0 /\ lam <> 0.
+Proof.
+  cbv zeta. split.
+  - intros i j Hi Hj. change (2 * cK toy_cfg1 + 1)%nat with 3%nat in *.
+    destruct i as [|[|[|i]]]; try lia; destruct j as [|[|[|j]]]; try lia; apply Qc_is_canon; vm_compute; reflexivity.
+  - repeat split; intro H; vm_compute in H; discriminate H.
+Qed.
+
+(** replay of C04_whole_state_is_assembly: on the toy grid the executed (materialised) composition and the
+    ModalAssembly instance are evaluated independently and agree; the values are not zero *)
+Definition toy_cfg : @PEcfg Qc :=
+  mkPE 2 (Q2Qc (1#3)) (Q2Qc (2#7)) (lvl2 (-(2#1)) (-(1#4))) (fun k => match k with O => qz | S O => Q2Qc (1#4) | _ => Q2Qc 1 end)
+       (lvl2 (250#1) (262#1)).
+Definition toy_orog : nat -> nat -> Qc :=
+  fun a l => match l with S O => match a with O => Q2Qc (1#50) | _ => qz end | _ => qz end.
+Example C04_whole_state_is_assembly_replay :
+  let g := toy_grid in let c := toy_cfg in let grav := Q2Qc (3#1) in
+  let X := X_of g (diagnostic_state g (cK c) toy_state) in
+  let E := explicit_terms_full g c grav toy_orog toy_state in
+  (s_vort E 1%nat 0%nat 1%nat = vort_tendency_explicit Wi Wi (toM_c g) (curlc_c g) (clip_c g) c X (fun p => rt_dry c (X p)) (fun _ => 0) 1%nat (0, 1)%nat /\
+   s_div E 0%nat 0%nat 1%nat = div_tendency_explicit Wi Wi (toM_c g) (divc_c g) (lap_c g) (clip_c g) c grav X (fun p => rt_dry c (X p))
+                                         (unc toy_orog) (fun _ => 0) 0%nat (0, 1)%nat /\
+   s_temp E 1%nat 0%nat 0%nat = temp_tendency_explicit Wi Wi (toM_c g) (divc_c g) (clip_c g) c X 1%nat (0, 0)%nat /\
+   s_lnps E 0%nat 0%nat = lnps_tendency_explicit_c g c X (0, 0)%nat) /\
+  s_vort E 1%nat 0%nat 1%nat <> 0 /\ s_div E 0%nat 0%nat 1%nat <> 0 /\ s_temp E 1%nat 0%nat 0%nat <> 0 /\ s_temp E 1%nat 0%nat 1%nat <> 0 /\ s_lnps E 0%nat 0%nat <> 0.
+Proof.
+  cbv zeta. split.
+  - repeat split; apply Qc_is_canon; vm_compute; reflexivity.
+  - repeat split; intro H; vm_compute in H; discriminate H.
+Qed.
+
+
+(** the two further premises of C04_whole_state_split_invariance on the toy instance (v00 = 1): to_nodal of the
+    (0,0)-only spectrum is the constant one, and a second temperature variation with the same absolute temperature *)
+Section ShiftRel.
+  Context {F : Type} {o : Ops F} {Fc : FieldC o}.
+  Add Field FFsr : (field_c : FieldTh o).
+  Lemma shift_rel (x t1 t2 e : F) : x + t1 * e = (x + (t1 - t2) * e) + t2 * e.
+  Proof. ring. Qed.
+End ShiftRel.
+Definition toy_T1 := lvl2 (250#1) (262#1).
+Definition toy_T2 := lvl2 (241#1) (270#1).
+Definition toy_temp2 : nat -> nat -> nat -> Qc :=
+  fun k a l => s_temp toy_state k a l + (toy_T1 k - toy_T2 k) * onem00 (Q2Qc 1) (a, l).
+Example C04_whole_state_split_hyps_satisfiable :
+  (forall i j, (i < hI toy_grid)%nat -> (j < hJ toy_grid)%nat -> to_nodal toy_grid (cur (onem00 (Q2Qc 1))) i j = 1) /\
+  (forall k a l, s_temp toy_state k a l + toy_T1 k * onem00 (Q2Qc 1) (a, l) = toy_temp2 k a l + toy_T2 k * onem00 (Q2Qc 1) (a, l)) /\
+  (forall k, (2 <= k)%nat -> toy_T1 k = toy_T2 k) /\ toy_temp2 0%nat 0%nat 0%nat <> s_temp toy_state 0%nat 0%nat 0%nat.
+Proof.
+  split; [|split; [|split]].
+  - intros i j Hi Hj. change (hI toy_grid) with 1%nat in Hi. change (hJ toy_grid) with 2%nat in Hj.
+    destruct i as [|i]; [|lia]. destruct j as [|[|j]]; [| |lia]; apply Qc_is_canon; vm_compute; reflexivity.
+  - intros k a l. unfold toy_temp2. apply shift_rel.
+  - intros k Hk. destruct k as [|[|k]]; [lia|lia|reflexivity].
+  - intro H. vm_compute in H. discriminate H.
+Qed.
+
 (** Over the reals. *)
 Lemma R_feqb_sound : forall x y : R, @feqb R ROps x y = true -> x = y.
 Proof. intros x y. cbn. unfold Reqb. destruct (Req_EM_T x y); [auto|discriminate]. Qed.
@@ -564,3 +773,8 @@ Print Assumptions C04_whole_state_divergence_invariance.
 Print Assumptions C04_whole_state_vorticity_invariance.
 Print Assumptions C04_whole_state_implicit_linear.
 Print Assumptions C04_whole_state_resolvent.
+Print Assumptions C04_whole_state_hyps_satisfiable.
+Print Assumptions C04_whole_state_resolvent_hyps_satisfiable.
+Print Assumptions C04_whole_state_is_assembly_replay.
+Print Assumptions C04_whole_state_split_invariance.
+Print Assumptions C04_whole_state_split_hyps_satisfiable.
